@@ -30,12 +30,14 @@ impl PropDef {
 pub mod common;
 
 pub mod c01;
+pub mod c05;
 pub mod c15;
 pub mod c20;
 
 pub fn get(id: &str) -> Option<PropDef> {
     match id {
         "C01" => Some(c01::def()),
+        "C05" => Some(c05::def()),
         "C15" => Some(c15::def()),
         "C20" => Some(c20::def()),
         _ => None,
